@@ -34,5 +34,6 @@ ClassPages ==
   \cup {<<Cl(d, <<"Base1">>, <<M("ctor", <<"int">>, <<"a">>, FALSE, d2)>>, <<M("m1", <<"int", "args">>, <<"a", "b">>, m, d2), M("m2", <<>>, <<>>, FALSE, D0)>>,
            <<At("at1", TRUE, d2), At("at2", FALSE, D0)>>, <<>>)>> : d \in SomeDocs, d2 \in Docs, m \in BOOLEAN}
   \cup {<<Cl(D1, <<>>, <<>>, <<M("m1", <<"int">>, <<"a", "b">>, FALSE, d)>>, <<>>, <<"n2">>), Cl(d, <<>>, <<>>, <<>>, <<At("at1", TRUE, d)>>, <<>>), Fn(d)>> : d \in Docs}
-AllPages == SinglePages \cup UndocPages \cup PairPages \cup ClassPages
+TwoInnerPages == {<<Cl(d, <<>>, <<>>, <<>>, <<>>, <<"n2", "n3">>), Cl(D0, <<>>, <<>>, <<>>, <<>>, <<>>), Cl(d, <<>>, <<>>, <<>>, <<>>, <<>>), Fn(d)>> : d \in SomeDocs}
+AllPages == TwoInnerPages \cup SinglePages \cup UndocPages \cup PairPages \cup ClassPages
 =============================================================================
